@@ -299,6 +299,10 @@ def idx_int(v):
 
 def getitem(interp, st, o, k, node=None):
     """o[k]; k may be ('slice', lo, hi, step)"""
+    from .chars import VChars, chars_getitem
+    if isinstance(o, VChars):
+        yield from chars_getitem(interp, st, o, k, node)
+        return
     if isinstance(k, tuple) and k and k[0] == 'slice':
         yield from getslice(interp, st, o, k[1], k[2], k[3], node)
         return
@@ -603,6 +607,11 @@ def delitem(interp, st, o, k, node=None):
 
 def contains(interp, st, container, x, node=None):
     """x in container -> yields (st, VBool | Raise)"""
+    from .chars import VChars, to_vstr
+    if isinstance(container, VChars):
+        container = to_vstr(container)
+    if isinstance(x, VChars):
+        x = to_vstr(x)
     if isinstance(container, (VStr, VBytes)):
         if isinstance(container, VBytes) and is_numeric(x):
             xi = as_int_term(x)
